@@ -66,14 +66,21 @@ class World:
             elif c == MULTI_CLS:
                 self.usercls[key] = self.MultipleExceptions
             else:
-                self.usercls[key] = type('U%d' % c[1], (self.cls(c[2]),), {})
+                # every third user class makes falsy instances (an empty aggregate exception): nothing may depend on bool(exception)
+                self.usercls[key] = type('U%d' % c[1], (self.cls(c[2]),), {'__bool__': lambda self: False} if c[1] % 3 == 0 else {})
         return self.usercls[key]
+
+    #: realisation hint ['empty-reason', tag]: the reason carrying this tag is the empty string (falsy but valid)
+    empty_reason_tag = None
+
+    def reason_text(self, tag):
+        return '' if tag == self.empty_reason_tag else 'reason-%d' % tag
 
     def make_exc(self, e):
         cls, tag = e
         k = self.cls(cls)
         if k is unittest.SkipTest or (isinstance(k, type) and issubclass(k, unittest.SkipTest)):
-            x = k('reason-%d' % tag)
+            x = k(self.reason_text(tag))
         else:
             x = k('x%d' % tag)
         x.verif = [cls, tag]
@@ -141,6 +148,8 @@ def canon_content(w, c):
     m = re.match(r'^(?:reason-|x)(\d+)$', text)
     if m and c.content_type.type == 'text':
         return ['reason', int(m.group(1))]
+    if text == '' and c.content_type.type == 'text' and w.empty_reason_tag is not None:
+        return ['reason', w.empty_reason_tag]
     if c.content_type.type == 'text' and c.content_type.subtype == 'plain' and '\n' not in text.strip():   # framework-made texts carry tag 0, whatever their wording
         return ['reason', 0]
     lines = text.strip().splitlines()
@@ -158,6 +167,8 @@ def canon_content(w, c):
         t = re.search(r'setup-tag-(\d+)', msg) or re.match(r'^(?:x|reason-|mm)(\d+)$', msg)
         if t:
             tag = int(t.group(1))
+        elif msg == '' and w.empty_reason_tag is not None and (cls == 'skip' or (isinstance(cls, list) and 'skip' in str(cls))):
+            tag = w.empty_reason_tag                     # the skip whose reason is the empty string
         elif cls == 'failure' or cls == MULTI_CLS:      # an AssertionError without a harness tag: the forced failure, whatever its wording
             tag = 0
         else:
@@ -217,6 +228,8 @@ def make_sink(w, flavour, log):
             elif reason is not None:
                 m = re.match(r'^(?:reason-|x)(\d+)$', reason)
                 d = [[[2], ['reason', int(m.group(1))]]] if m else []   # anything else is the details-to-text rendering
+                if reason == '' and w.empty_reason_tag is not None:
+                    d = [[[2], ['reason', w.empty_reason_tag]]]
             else:
                 d = []
             log.append(['outcome', kind, d])
@@ -257,6 +270,8 @@ def make_sink(w, flavour, log):
                 if kind == 'skip' and a and isinstance(a[0], str):
                     m = re.match(r'^(?:reason-|x)(\d+)$', a[0])
                     d = [[[2], ['reason', int(m.group(1))]]] if m else []   # anything else is the details-to-text rendering
+                    if a[0] == '' and w.empty_reason_tag is not None:
+                        d = [[[2], ['reason', w.empty_reason_tag]]]
                 log.append(['outcome', kind, d])
             return f
         kinds = [('success', 'addSuccess'), ('failure', 'addFailure'), ('error', 'addError')]
@@ -389,7 +404,7 @@ def build_case(w, prog, log, clock, scratch, sink_factory, hints=()):
                 # realisation hint: the same exception raised through the TestCase helper instead of a raise statement
                 try:
                     if term[1][0] == 'skip':
-                        case.skipTest('reason-%d' % term[1][1])
+                        case.skipTest(w.reason_text(term[1][1]))
                     else:
                         case.fail('x%d' % term[1][1])
                 except (unittest.SkipTest, AssertionError) as x:
@@ -416,7 +431,7 @@ def build_case(w, prog, log, clock, scratch, sink_factory, hints=()):
                 def pred():
                     return None
             try:
-                case.expectFailure('reason-%d' % r, pred)
+                case.expectFailure(w.reason_text(r), pred)
             except Exception as e:
                 e.verif = x
                 raise
@@ -441,7 +456,7 @@ def build_case(w, prog, log, clock, scratch, sink_factory, hints=()):
     if skip_deco is not None:
         # realisation hint ['skip', k]: which of the equivalent skip decorators is used, on the method or on the class
         real = next((h[1] for h in hints if isinstance(h, list) and h[0] == 'skip'), 0)
-        why = 'reason-%d' % skip_deco[1]
+        why = w.reason_text(skip_deco[1])
         import testtools.testcase as ttc
         deco = [unittest.skip(why), ttc.skip(why), ttc.skipIf(True, why), ttc.skipUnless(False, why)][real % 4]
         if real >= 4:
@@ -552,6 +567,7 @@ def run_program(inp):
     w = world()
     prog, runs = inp[0], inp[1]
     hints = list(inp[2]) if len(inp) > 2 else []
+    w.empty_reason_tag = next((h[1] for h in hints if isinstance(h, list) and h[0] == 'empty-reason'), None)
     flavour = prog[-1]
     attrs0 = prog[8]
     log = []
@@ -777,6 +793,14 @@ def gen_input(rng, focus='all'):
         hints.append(['runner', rng.randrange(1, 4)])
     if any(a[0] == 'patch' for st in all_stages(prog) for a in st[2]) and rng.random() < 0.6:
         hints.append(['scratch', rng.randrange(1, 5)])
+    if rng.random() < 0.25:
+        # one reason in the program is the empty string: a skip raised by a stage, the skip decorator's, or expectFailure's
+        tags = [st[3][1][1] for st in all_stages(prog) if isinstance(st[3], list) and st[3][0] == 'raise1' and st[3][1][0] == 'skip']
+        tags += [st[3][1] for st in all_stages(prog) if isinstance(st[3], list) and st[3][0] == 'expectFailure']
+        if prog[1] is not None:
+            tags += [prog[1][1]] * 3
+        if tags:
+            hints.append(['empty-reason', rng.choice(tags)])
     if prog[1] is not None:
         k = rng.randrange(8)
         if k:
@@ -818,7 +842,7 @@ def exc_kinds(prog):
 
 def features(inp, traces):
     prog, runs = inp[0], inp[1]
-    f = ['flavour=' + prog[-1], 'runs=%d' % runs] + (['hint:fixture-getDetails-raises'] if len(inp) > 2 and any(isinstance(h, int) for h in inp[2]) else []) + ['hint:skip-decorator-%d' % h[1] for h in (inp[2] if len(inp) > 2 else []) if isinstance(h, list) and h[0] == 'skip'] + ['hint:%s' % h[0] for h in (inp[2] if len(inp) > 2 else []) if isinstance(h, list) and h[0] in ('late-upcall', 'runner')] + ['hint:scratch-%d' % h[1] for h in (inp[2] if len(inp) > 2 else []) if isinstance(h, list) and h[0] == 'scratch'] + ['hint:helper-raises' for h in (inp[2] if len(inp) > 2 else []) if isinstance(h, list) and h[0] == 'api'][:1]
+    f = ['flavour=' + prog[-1], 'runs=%d' % runs] + (['hint:fixture-getDetails-raises'] if len(inp) > 2 and any(isinstance(h, int) for h in inp[2]) else []) + ['hint:skip-decorator-%d' % h[1] for h in (inp[2] if len(inp) > 2 else []) if isinstance(h, list) and h[0] == 'skip'] + ['hint:%s' % h[0] for h in (inp[2] if len(inp) > 2 else []) if isinstance(h, list) and h[0] in ('late-upcall', 'runner', 'empty-reason')] + ['hint:scratch-%d' % h[1] for h in (inp[2] if len(inp) > 2 else []) if isinstance(h, list) and h[0] == 'scratch'] + ['hint:helper-raises' for h in (inp[2] if len(inp) > 2 else []) if isinstance(h, list) and h[0] == 'api'][:1]
     sts = list(all_stages(prog))
     faulty = [s for s in sts if s[3] != 'ret']
     f.append('stages=%s' % (len(sts) if len(sts) < 8 else '8+'))
